@@ -328,7 +328,7 @@ func shortName(fn *ssa.Function) string {
 			t = pt.Elem()
 		}
 		if n, ok := t.(*types.Named); ok {
-			return n.Obj().Name() + "." + load.SimpleName(fn)
+			return load.TypeRecordedName(n.Obj()) + "." + load.SimpleName(fn)
 		}
 	}
 	if fn.Pkg != nil {
@@ -338,8 +338,9 @@ func shortName(fn *ssa.Function) string {
 }
 
 func typeShort(t types.Type) string {
-	s := types.TypeString(t, func(p *types.Package) string { return p.Name() })
-	return s
+	var pkgs []*types.Package
+	s := types.TypeString(t, func(p *types.Package) string { pkgs = append(pkgs, p); return p.Name() })
+	return load.AliasTypeString(s, pkgs...) // renamed unexported types render under their recorded names
 }
 
 type walker struct {
@@ -1157,7 +1158,7 @@ func fieldName(t types.Type, idx int) string {
 	}
 	if st, ok := t.Underlying().(*types.Struct); ok && idx < st.NumFields() {
 		if n, ok := t.(*types.Named); ok && FieldNames != nil && n.Obj().Pkg() != nil {
-			if rec := FieldNames(load.Rel(n.Obj().Pkg()) + "." + n.Obj().Name()); len(rec) == st.NumFields() {
+			if rec := FieldNames(load.Rel(n.Obj().Pkg()) + "." + load.TypeRecordedName(n.Obj())); len(rec) == st.NumFields() {
 				return load.AliasFieldNames(rec, st)[idx]
 			}
 		}
